@@ -88,6 +88,11 @@ CHECKS['C15'] = dict(engine='SYMREL', category='translation_validation', design=
    text='For each of 252 family members (9 time conditions x 3 partition filters x 0..2 partition columns x model side x LIMIT) the real planner is run once and the emitted data-fetching steps are translated; z3 shows that for EVERY table content of up to R rows (NULLs, duplicates, empty partitions), every window size 1..R and every constant, the rows handed to the model are exactly: the rows satisfying the time condition plus the `window` most recent rows before its lower bound (or the most recent `window` rows up to the point for = / LATEST), per partition value, non-NULL order value, partition filters applied. Also: output filter = the user\'s condition, LIMIT applied after the join, ORDER BY/GROUP BY/HAVING/OFFSET/foreign filters rejected with PlanningException.',
    note='Trusted: z3; SYMREL translator (validated against sqlite3 on random tables for every member on every run); step semantics from planner/steps.py docstrings. Ties in the order column and NULL partition values are excluded by stated assumptions. R=3,D=3 quick / R=4,D=4 thorough.')
 
+CHECKS['C11'] = dict(engine='SYMREL', category='translation_validation', design='4/C11',
+   technique='z3 relational encoding (SYMREL): the query of the single fetch step emitted by the real planner is compared, over all small database contents, with the original query (bag equality and output column names); sat models replayed on sqlite3 with the integration as an attached schema',
+   text='For each of 38 single-integration statements (joins of every kind, nested/IN/scalar subqueries, CTE, UNION/INTERSECT/EXCEPT, GROUP BY/HAVING, DISTINCT, ORDER BY..LIMIT/OFFSET, CASE, aliases and tables spelled like the integration, mixed-case and three-part qualifiers): the plan is exactly one fetch step for that integration, and for EVERY database content within the bound the pushed query returns the same bag of rows under the same output column names as the original.',
+   note='Trusted: z3; SYMREL (validated against sqlite3 per member per run); sqlite3 for replay. R=2 (quick) / 3 (thorough) rows per table, values 0..3 with NULLs. Window functions and string/date data are outside the fragment.')
+
 NA_PENDING = {}
 
 
